@@ -150,6 +150,10 @@ impl<C: Cursor> Cursor for BoundsCursor<C> {
         if self.bounds == Bounds::BeforeStart {
             self.seek_to_first()?;
             self.next()?;
+        } else if self.bounds == Bounds::AfterEnd || self.cursor.key().is_none() {
+            // Nothing in range at or after key.  Park the inner cursor just past the end bound so
+            // that prev() yields the last key in range rather than a key beyond the bound.
+            self.seek_to_last()?;
         }
         Ok(())
     }
